@@ -35,8 +35,9 @@ const char kAlphabet[] = "ABCDEFGHIJKLMNOPQRSTUVWXYZabcdefghijklmnopqrstuvwxyz01
 
 struct Rec {           // one record as seen by a sink
   int t = -1; long seq = -1; int level_code = 0; long tid = 0; std::string module, file, text; bool trunc = false;
+  std::string when;   // "YYYY-MM-DD HH:MM:SS.uuuuuu" as the sink wrote it (RecSyncSink: formatted from LogContent::timestamp)
 };
-struct Call { int t; long seq; int level; int module; size_t len; bool puts; int round; bool multiline; };
+struct Call { int t; long seq; int level; int module; size_t len; bool puts; int round; bool multiline; long stamp_sec; long stamp_usec; };
 
 // multiline: about every 9th character is a line feed (a dumped JSON document, a back trace ...): still ONE record
 std::string text_of(int t, long seq, size_t len, bool multiline = false) {
@@ -46,6 +47,11 @@ std::string text_of(int t, long seq, size_t len, bool multiline = false) {
   return s;
 }
 
+// ---- the wall clock LogPrintfFunc() stamps a record with: gettimeofday(), interposed for the calling thread only while it logs
+// (the harness executable's definition takes precedence over libc's for the statically linked tbox libraries)
+thread_local bool tl_stamp_set = false; thread_local struct timeval tl_stamp;
+std::string when_of(long sec, long usec) { time_t t = sec; struct tm tm; localtime_r(&t, &tm); char b[40]; size_t n = strftime(b, sizeof b, "%F %H:%M:%S", &tm); snprintf(b + n, sizeof b - n, ".%06ld", usec); return b; }
+
 // ---- recording sinks through the public Sink API
 struct RecSyncSink : public tbox::log::Sink {
   std::mutex mu; std::vector<Rec> recs; std::atomic<int> in_cb{0}; std::atomic<bool> overlap{false};
@@ -53,7 +59,7 @@ struct RecSyncSink : public tbox::log::Sink {
     if (in_cb.fetch_add(1) != 0) overlap = true;
     Rec r; r.level_code = LOG_LEVEL_LEVEL_CODE[c->level]; r.tid = c->thread_id; r.module = c->module_id ? c->module_id : "";
     r.file = c->file_name ? c->file_name : ""; r.seq = c->line; r.t = (c->func_name && c->func_name[0] == 't') ? atoi(c->func_name + 1) : -1;
-    r.text.assign(c->text_ptr ? c->text_ptr : "", c->text_len); r.trunc = c->text_trunc;
+    r.text.assign(c->text_ptr ? c->text_ptr : "", c->text_len); r.trunc = c->text_trunc; r.when = when_of(c->timestamp.sec, c->timestamp.usec);
     { std::lock_guard<std::mutex> lg(mu); recs.push_back(std::move(r)); }
     in_cb.fetch_sub(1);
   }
@@ -88,7 +94,7 @@ bool parse_line(const std::string &ln, Rec &r, std::string &why) {
   const std::string mark = "(TRUNCATED) ";
   if (mid.size() >= mark.size() && mid.compare(mid.size() - mark.size(), mark.size(), mark) == 0) { r.trunc = true; mid.erase(mid.size() - mark.size()); }
   if (!mid.empty()) { if (mid.back() != ' ') { why = "text not followed by a space"; return false; } mid.pop_back(); }
-  r.text = mid; r.level_code = lv[0]; r.tid = atol(tid.c_str()); r.module = mod; r.t = atoi(fn.c_str() + 1);
+  r.when = date + " " + tm; r.text = mid; r.level_code = lv[0]; r.tid = atol(tid.c_str()); r.module = mod; r.t = atoi(fn.c_str() + 1);
   r.file = fl.substr(0, colon); r.seq = atol(fl.c_str() + colon + 1);
   return true;
 }
@@ -113,7 +119,8 @@ void rm_rf(const std::string &d) {
   closedir(dir); rmdir(d.c_str());
 }
 
-struct SinkSpec { int kind = 0; int deflevel = 8; int modlevel[4] = {-1, -1, -1, -1}; int buf = 3, mn = 2, mx = 4, intv = 1, fmax = 4;
+struct SinkSpec { int endmode = 0;   // how the sink's life ends: 0,1 disable(); 2 cleanup() of the still enabled file sink; 3 the enabled file sink is destroyed
+  int kind = 0; int deflevel = 8; int modlevel[4] = {-1, -1, -1, -1}; int buf = 3, mn = 2, mx = 4, intv = 1, fmax = 4;
   std::vector<std::pair<int, int>> level_calls;   // (module, level) in call order; level -1 = unsetLevel(module); modlevel[] is the resulting model
   int redefinitions = 0; };
 
@@ -123,13 +130,14 @@ std::string run(const Scenario &s, CaseInfo &info) {
   std::vector<SinkSpec> specs;
   std::vector<std::pair<int, Call>> script[kMaxThreads];   // (0 log | 1 yield us)
   long seqs[kMaxThreads] = {0};
+  long clock_sec = 1790000000, clock_usec = 0; bool stamp_back = false;   // the generated wall clock of the records
   int cur_round = 0; unsigned early_mask = 0, reen_mask = 0; bool early_reverse = false;   // SPLIT: sinks in early_mask are disabled between round 0 and round 1;
                                                                                             // those also in reen_mask are enabled again (second life of the same sink object) before round 1
   for (auto &op : s.ops) {
     switch (op.code) {
       case CFG: maxlen = (size_t)kMaxLens[op.in(0, 0, 7)]; nthreads = (int)op.in(1, 1, kMaxThreads); break;
       case SINK: if ((int)specs.size() < kMaxSinks) { SinkSpec sp; sp.kind = (int)op.in(0, 0, 4); sp.deflevel = (int)op.in(1, -1, 8);
-          sp.buf = (int)op.in(2, 0, 4); sp.mn = (int)op.in(3, 1, 3); sp.mx = sp.mn + (int)op.in(4, 0, 3); sp.intv = (int)op.in(5, 0, 2); sp.fmax = (int)op.in(6, 0, 4);
+          sp.buf = (int)op.in(2, 0, 4); sp.mn = (int)op.in(3, 1, 3); sp.mx = sp.mn + (int)op.in(4, 0, 3); sp.intv = (int)op.in(5, 0, 2); sp.fmax = (int)op.in(6, 0, 4); sp.endmode = (int)op.in(7, 0, 3);
           bool has_stdout = false; for (auto &x : specs) if (x.kind >= 3) has_stdout = true;
           if (sp.kind >= 3 && has_stdout) sp.kind = 0;      // at most one sink may own fd 1
           specs.push_back(sp); } break;
@@ -141,7 +149,13 @@ std::string run(const Scenario &s, CaseInfo &info) {
         switch (op.in(3, 0, 9)) { case 0: L = 0; break; case 1: L = 1; break; case 2: L = maxlen ? maxlen - 1 : 0; break; case 3: L = maxlen; break; case 4: L = maxlen + 1; break;
           case 5: L = 2047 + (size_t)(k % 4); break; case 6: L = 3 * maxlen + 1; break; default: L = (size_t)k % 200; }
         if (L > 400000) L = 400000;
-        c.len = L; c.puts = (op.in(5, 0, 3) & 1) == 1; c.multiline = (op.in(5, 0, 3) & 2) != 0; c.round = cur_round; script[t].push_back({0, c}); break; }
+        c.len = L; c.puts = (op.in(5, 0, 3) & 1) == 1; c.multiline = (op.in(5, 0, 3) & 2) != 0; c.round = cur_round;
+        { // time stamp of the record: mostly advancing by microseconds, sometimes jumping across second/minute/day boundaries in either direction
+          // (several threads stamp before they take the log lock, and the wall clock may be stepped back)
+          static const long kJump[] = {0, 0, 0, 0, 1, -1, 2, -2, 59, -59, 60, -61, 3600, -3601, 86400, -86399};
+          int64_t tm_ = op.in(6, 0, 15); clock_sec += kJump[tm_]; clock_usec = (clock_usec + 1 + (long)(op.in(4, 0, 3000) * 331) % 999983) % 1000000;
+          if (tm_ >= 4 && kJump[tm_] < 0) stamp_back = true;
+          c.stamp_sec = clock_sec; c.stamp_usec = clock_usec; } script[t].push_back({0, c}); break; }
       case SPLIT: if (cur_round == 0) { cur_round = 1; early_mask = (unsigned)op.in(0, 0, 7); early_reverse = op.in(1, 0, 1) == 1; reen_mask = (unsigned)op.in(2, 0, 7); } break;
       case YIELD: { Call c{}; c.len = (size_t)op.in(1, 0, 500); c.round = cur_round; script[op.in(0, 0, kMaxThreads - 1)].push_back({1, c}); break; }
       default: break;
@@ -190,7 +204,7 @@ std::string run(const Scenario &s, CaseInfo &info) {
 
   // ---- what a sink has got so far (no waiting)
   std::string err;
-  bool any_trunc = false, any_roll = false, cross_boundary = false, any_multiline = false;
+  bool any_trunc = false, any_roll = false, cross_boundary = false, any_multiline = false, ended_without_disable = false;
   char buf[400];
   auto collect = [&](size_t i, std::vector<Rec> &got) {
     SinkSpec &sp = specs[i];
@@ -236,8 +250,10 @@ std::string run(const Scenario &s, CaseInfo &info) {
         if (st.first == 1) { if (st.second.len < 50) std::this_thread::yield(); else std::this_thread::sleep_for(std::chrono::microseconds(st.second.len)); continue; }
         const Call &c = st.second;
         std::string txt = text_of(t, c.seq, c.len, c.multiline);
+        tl_stamp.tv_sec = c.stamp_sec; tl_stamp.tv_usec = c.stamp_usec; tl_stamp_set = true;
         if (c.puts) LogPrintfFunc(kModules[c.module], fn, "/some/dir/h.cpp", (int)c.seq, c.level, 0, txt.c_str());
         else LogPrintfFunc(kModules[c.module], fn, "/some/dir/h.cpp", (int)c.seq, c.level, 1, "%s", txt.c_str());
+        tl_stamp_set = false;
       }
       barrier();
     });
@@ -263,7 +279,12 @@ std::string run(const Scenario &s, CaseInfo &info) {
   }
   release = true;
   for (auto &t : th) t.join();
-  for (auto &sk : sinks) sk->disable();      // everything must be delivered / on disk when this returns
+  // everything must be delivered / on disk when this returns; a file sink may also end its life by cleanup() or by being destroyed while enabled
+  for (size_t i = 0; i < sinks.size(); ++i) {
+    if (specs[i].kind == 2 && specs[i].endmode == 2 && !early[i]) { static_cast<tbox::log::AsyncFileSink *>(sinks[i].get())->cleanup(); ended_without_disable = true; }
+    else if (specs[i].kind == 2 && specs[i].endmode == 3 && !early[i]) { sinks[i].reset(); ended_without_disable = true; }
+    else sinks[i]->disable();
+  }
   if (saved_stdout >= 0) { fflush(stdout); dup2(saved_stdout, 1); close(saved_stdout); }
   LogSetMaxLength(old_max);
 
@@ -290,6 +311,7 @@ std::string run(const Scenario &s, CaseInfo &info) {
       if (want_trunc) any_trunc = true;
       if (r.text != want) { snprintf(buf, sizeof buf, "sink %zu (kind %d): text of thread %d seq %ld is damaged: got %zu bytes, expected %zu (original %zu, max %zu)", i, sp.kind, r.t, r.seq, r.text.size(), want.size(), c.len, maxlen); err = buf; break; }
       if (r.trunc != want_trunc) { snprintf(buf, sizeof buf, "sink %zu (kind %d): thread %d seq %ld (len %zu, max %zu): truncation mark %s", i, sp.kind, r.t, r.seq, c.len, maxlen, want_trunc ? "missing" : "present on an uncut text"); err = buf; break; }
+      if (r.when != when_of(c.stamp_sec, c.stamp_usec)) { snprintf(buf, sizeof buf, "sink %zu (kind %d): time field of thread %d seq %ld is '%s', but the record was stamped %s", i, sp.kind, r.t, r.seq, r.when.c_str(), when_of(c.stamp_sec, c.stamp_usec).c_str()); err = buf; break; }
       if (r.level_code != LOG_LEVEL_LEVEL_CODE[c.level] || r.module != kModules[c.module] || r.file != "h.cpp" || r.tid != tids[c.t]) {
         snprintf(buf, sizeof buf, "sink %zu (kind %d): header fields of thread %d seq %ld damaged (level '%c' module '%s' file '%s' tid %ld, expected '%c' '%s' 'h.cpp' %ld)", i, sp.kind, r.t, r.seq, r.level_code, r.module.c_str(), r.file.c_str(), r.tid, LOG_LEVEL_LEVEL_CODE[c.level], kModules[c.module], tids[c.t]); err = buf; break; }
       if ((sp.kind == 1 || sp.kind == 2 || sp.kind == 4) && sizeof(LogContent) + c.len > (size_t)kPipeBuf[sp.buf]) cross_boundary = true;
@@ -311,6 +333,8 @@ std::string run(const Scenario &s, CaseInfo &info) {
   info.cls_if(cross_boundary, "record_crosses_pipe_buffer");
   info.cls_if(any_trunc, "truncated_record");
   info.cls_if(any_roll, "file_rollover");
+  info.cls_if(ended_without_disable, "enabled_file_sink_cleaned_up_or_destroyed_without_disable");
+  info.cls_if(stamp_back, "record_stamped_in_an_earlier_second_than_its_predecessor");
   info.cls_if(any_multiline, "record_text_with_embedded_line_feeds");
   info.cls_if(any_multiline && any_roll, "multi_line_records_with_file_rollover");
   info.cls_if(saved_stdout >= 0, "in_tree_stdout_sink");
@@ -324,17 +348,17 @@ std::string run(const Scenario &s, CaseInfo &info) {
 SubDef def = [] {
   SubDef d; d.name = "logging";
   d.op_names = {"cfg", "sink", "modlvl", "log", "yield", "split"};
-  d.op_arity = {2, 7, 3, 6, 2, 3};
+  d.op_arity = {2, 8, 3, 7, 2, 3};
   d.nt_rule = ">= 2 threads logging concurrently to an async sink with a record crossing a pipe-buffer boundary, or a truncated record, or a file roll-over inside the run";
   d.run = run;
 #ifndef VERIF_ENGINE_FUZZ
   d.gen = [] {
     auto th = range(0, kMaxThreads - 1);
     auto cfg = mkop(CFG, {range(0, 7), range(1, kMaxThreads)});
-    auto sink = mkop(SINK, {range(0, 4), rc::gen::weightedOneOf<int64_t>({{3, rc::gen::just<int64_t>(8)}, {3, range(-1, 8)}}), range(0, 4), range(1, 3), range(0, 3), range(0, 2), range(0, 4)});
+    auto sink = mkop(SINK, {range(0, 4), rc::gen::weightedOneOf<int64_t>({{3, rc::gen::just<int64_t>(8)}, {3, range(-1, 8)}}), range(0, 4), range(1, 3), range(0, 3), range(0, 2), range(0, 4), range(0, 3)});
     auto sinks = rc::gen::resize(3, rc::gen::container<std::vector<Op>>(sink));
     auto opg = rc::gen::weightedOneOf<Op>({
-      {12, mkop(LOG, {th, range(0, 7), range(0, 3), range(0, 9), range(0, 3000), rc::gen::weightedOneOf<int64_t>({{3, range(0, 1)}, {1, range(2, 3)}})})},
+      {12, mkop(LOG, {th, range(0, 7), range(0, 3), range(0, 9), range(0, 3000), rc::gen::weightedOneOf<int64_t>({{3, range(0, 1)}, {1, range(2, 3)}}), rc::gen::weightedOneOf<int64_t>({{3, range(0, 3)}, {2, range(4, 15)}})})},
       {2, mkop(YIELD, {th, rc::gen::weightedOneOf<int64_t>({{3, range(0, 49)}, {1, range(50, 500)}})})},
       {2, mkop(MODLVL, {range(0, 2), range(0, 3), range(-1, 7)})},
       {1, mkop(SPLIT, {range(0, 7), range(0, 1), range(0, 7)})},
@@ -348,3 +372,13 @@ SubDef def = [] {
 }();
 VERIF_REGISTER(&def);
 }  // namespace
+
+// Interposed wall clock (see tl_stamp above): only the thread that is inside a harness log call gets the generated stamp.
+#include <dlfcn.h>
+#include <sys/time.h>
+extern "C" int gettimeofday(struct timeval *tv, void *tz) noexcept {
+  if (tl_stamp_set && tv) { *tv = tl_stamp; return 0; }
+  using Fn = int (*)(struct timeval *, void *);
+  static Fn real = (Fn)dlsym(RTLD_NEXT, "gettimeofday");
+  return real ? real(tv, tz) : -1;
+}
